@@ -118,7 +118,21 @@ GENS = {
 }
 
 
+def _load_plugins():
+    """area plug-ins `harness/srctie_<area>.py` add their generators to GENS"""
+    import importlib
+    import os
+    if getattr(_load_plugins, "done", False):
+        return
+    _load_plugins.done = True
+    here = os.path.dirname(os.path.abspath(__file__))
+    for fn in sorted(os.listdir(here)):
+        if fn.startswith("srctie_") and fn.endswith(".py"):
+            importlib.import_module(fn[:-3]).register(GENS)
+
+
 def lines(rng, funcs: list[str], n: int) -> list[str]:
+    _load_plugins()
     out = []
     for f in funcs:
         g = GENS[f]
